@@ -66,18 +66,8 @@ func execMultiplicativeExprDivide(context *exprContext, expr *grammar.Grammar) e
 		return err
 	}
 
-	if right == 0 {
-		if left == 0 {
-			context.result = Number(math.NaN())
-		} else if left > 0 {
-			context.result = Number(math.Inf(1))
-		} else {
-			context.result = Number(math.Inf(-1))
-		}
-
-		return nil
-	}
-
+	// IEEE 754 division: x div 0 is an infinity with the sign of x and of
+	// the zero, and 0 div 0 is NaN.
 	context.result = Number(left / right)
 	return nil
 }
@@ -89,12 +79,9 @@ func execMultiplicativeExprMod(context *exprContext, expr *grammar.Grammar) erro
 		return err
 	}
 
-	if right == 0 {
-		context.result = Number(math.NaN())
-		return nil
-	}
-
-	context.result = Number(int(left) % int(right))
+	// The remainder of a truncating division on the operands themselves
+	// (5.5 mod 2 is 1.5, x mod 0 is NaN), with the sign of the dividend.
+	context.result = Number(math.Mod(left, right))
 	return nil
 }
 
